@@ -62,7 +62,7 @@ Fixpoint has_tyb (t : ty) (v : val) {struct t} : bool :=
   | TTime, VL [VN s; VN k] => (s <? two64) && (k <? two64)
   | TArr e, VL xs => (N.of_nat (length xs) <? two64) && (fix all l := match l with [] => true | x :: l' => has_tyb e x && all l' end) xs
   | TIdx, VL xs => (N.of_nat (length xs) <? two64) && (fix all l := match l with [] => true | x :: l' => (match x with VN n => n <? 2 ^ 32 | _ => false end) && all l' end) xs
-  | TMap sk fs, VR vs => fields_tyb sk fs vs
+  | TMap sk _ fs, VR vs => fields_tyb sk fs vs
   | _, _ => false
   end
 with fields_tyb (sk : bool) (fs : fields) (vs : list (option val)) {struct fs} : bool :=
